@@ -325,6 +325,24 @@ Theorem C03_merge_unordered_disk_after_commit : forall v inuse fails old new uno
 Proof. exact unordered_disk_after_commit. Qed.
 Print Assumptions C03_merge_unordered_disk_after_commit.
 
+(* writeCompactedFileInfo after fix6 (a log that could not be written or synced is removed again): nothing at all is left of the
+   given-up replacement - the disk is the state before it and the live list is unchanged - and the restart theorem holds for the
+   protocol with this cleanup as well *)
+Theorem C03_failed_log_leaves_nothing : forall v inuse fails i0 old new st live,
+  logs st = NoLog -> fails i0 = false -> fails (S i0) || fails (S (S i0)) = true ->
+  r_fs (replace_exec_c true v inuse fails i0 old new st live) = st /\
+  r_live (replace_exec_c true v inuse fails i0 old new st live) = live.
+Proof. exact replace_exec_c_nothing. Qed.
+Print Assumptions C03_failed_log_leaves_nothing.
+
+Theorem C03_fault_restart_atomic_with_log_cleanup : forall cleanup v inuse fails i0 st0 old new univ live cr,
+  protocol_pre st0 old new univ -> logs st0 = NoLog ->
+  let st' := recover_with_crashes univ cr (r_fs (replace_exec_c cleanup v inuse fails i0 old new st0 live)) in
+  ((forall n, visible st' n = view_old st0 n) \/ (forall n, visible st' n = view_new st0 old new n)) /\
+  (forall n, files st' (n, true) = None) /\ notfull st' /\ recover univ st' = st'.
+Proof. exact fault_restart_atomic_c. Qed.
+Print Assumptions C03_fault_restart_atomic_with_log_cleanup.
+
 (* deleteUnorderedFiles after fix5 (park first, stop at the first input that cannot be parked): whatever fails, the inputs that
    are still visible on disk - and in the live list - are a SUFFIX of the merged inputs (the newest ones); every other file and
    the intent-log state are untouched. With merge_ooo_preserves_contents: answers unchanged live and after restart. *)
